@@ -179,6 +179,19 @@ def gen_program(rng: random.Random, focus: str, pid: int) -> dict:
                     labs = sorted(rng.sample(LABELS, rng.choice([1, 1, 2])))
                     op["pproj_calls"][c] = labs
                     op["pproj"][c] = list(labs)
+            if pid % 3 == 0 and op is ops[0]:
+                # two corners given the same label(s), one of them projected once more in a later call: each corner has the
+                # labels it was given, whatever else shares the caller's list
+                free = [c for c in range(8) if not op["pproj_calls"][c]]
+                if len(free) >= 2:
+                    c1, c2 = rng.sample(free, 2)
+                    labs = [rng.choice(LABELS)]
+                    more = rng.choice([x for x in LABELS if x not in labs])
+                    for c in (c1, c2):
+                        op["pproj_calls"][c] = list(labs)
+                        op["pproj"][c] = sorted(set(op["pproj"][c]) | set(labs))
+                    op["pproj_more"] = [[c1, more]]
+                    op["pproj"][c1] = sorted(set(op["pproj"][c1]) | {more})
             if focus == "addressing" and plain(op) and not op["edges"]:
                 implicit: Dict[frozenset, set] = {}
                 for s in range(6):
@@ -251,7 +264,7 @@ def gen_program(rng: random.Random, focus: str, pid: int) -> dict:
             "reassemble": rng.random() < 0.3, "reuse": rng.random() < 0.35,
             "pkind": [[k, v] for k, v in pkind.items()], "psettings": [[k, v] for k, v in pset.items()],
             "geom": geom, "geom_calls": geom_calls, "settings": prog_settings, "exp_settings": settings, "unique_face_labels": unique,
-            "builtin": False, "count": 2, "corner_lists": rng.random() < 0.5, "corners_first": rng.random() < 0.5}
+            "builtin": False, "count": 2, "corner_lists": rng.random() < 0.5 or pid % 3 == 0, "corners_first": rng.random() < 0.5 or pid % 6 == 0}
 
 
 def reuse_in_second_mesh(prog: dict, lofts: list, geo: Geometry, ctx: Ctx, rng: random.Random) -> Optional[dict]:
